@@ -408,5 +408,128 @@ example : conc (.view (.array (.pointer (.struct 1)) 2)) (demanded (.prim .i32) 
 -- and it is not a theorem about everything: a path that the type does not have has no elaboration
 example : elaborate exMembers (.array (.prim .i32) 3) [.member 0] = none := by decide
 
+
+/-! ### `&path`: the address of what a path denotes -/
+
+def unpointer : Ty → Ty
+  | .pointer t => t
+  | t => t
+
+def isIndirect : List Step → Bool
+  | [] => false
+  | .elem :: _ => true
+  | .member _ :: _ => true
+  | _ :: rest => isIndirect rest
+
+/-- `build_type_of_ref1` with `took_address = true`: `valueType` is the (pointer) type of the whole expression `&path` -/
+def demandedAddr (valueType : Ty) (steps : List Step) : Ty :=
+  let base := if steps.getLast? = some .elem then unpointer valueType else valueType
+  let full := demanded base steps
+  if isIndirect steps then full else unpointer full
+
+theorem demanded_member_last (l l' : Ty) (m : Nat) : ∀ (pre : List Step),
+    demanded l (pre ++ [.member m]) = demanded l' (pre ++ [.member m])
+  | [] => rfl
+  | s :: pre => by
+    have ih := demanded_member_last l l' m pre
+    cases s <;> simp only [List.cons_append, demanded, ih]
+
+theorem isIndirect_append_elem : ∀ (pre : List Step), isIndirect (pre ++ [.elem]) = true
+  | [] => rfl
+  | s :: pre => by cases s <;> simp [isIndirect, isIndirect_append_elem pre]
+
+theorem isIndirect_append_member (m : Nat) : ∀ (pre : List Step), isIndirect (pre ++ [.member m]) = true
+  | [] => rfl
+  | s :: pre => by cases s <;> simp [isIndirect, isIndirect_append_member m pre]
+
+/-- the elaborated steps of a non-empty path end in the element or member step the programmer wrote -/
+theorem elaborate_last (ms : Members) : ∀ (p : List UStep) (t : Ty) (steps : List Step) (leaf : Ty), p ≠ [] →
+    elaborate ms t p = some (steps, leaf) → ∃ pre, steps = pre ++ [.elem] ∨ ∃ m, steps = pre ++ [.member m]
+  | [], _, _, _, hne, _ => absurd rfl hne
+  | u :: rest, t, steps, leaf, _, h => by
+    -- the first written step contributes `front ++ [step]`; the rest either is empty or ends properly by induction
+    have tail : ∀ (front : List Step) (st : Step) (e : Ty) (s' : List Step),
+        (st = .elem ∨ ∃ m, st = .member m) → elaborate ms e rest = some (s', leaf) →
+        ∃ pre, front ++ [st] ++ s' = pre ++ [.elem] ∨ ∃ m, front ++ [st] ++ s' = pre ++ [.member m] := by
+      intro front st e s' hst hr
+      cases hrest : rest with
+      | nil =>
+        rw [hrest] at hr
+        simp only [elaborate, Option.some.injEq, Prod.mk.injEq] at hr
+        obtain ⟨rfl, _⟩ := hr
+        rcases hst with rfl | ⟨m, rfl⟩
+        · exact ⟨front, Or.inl (by simp)⟩
+        · exact ⟨front, Or.inr ⟨m, by simp⟩⟩
+      | cons u' rest' =>
+        obtain ⟨pre, hp⟩ := elaborate_last ms rest e s' leaf (by rw [hrest]; simp) hr
+        rcases hp with hp | ⟨m, hp⟩
+        · exact ⟨front ++ [st] ++ pre, Or.inl (by rw [hp]; simp [List.append_assoc])⟩
+        · exact ⟨front ++ [st] ++ pre, Or.inr ⟨m, by rw [hp]; simp [List.append_assoc]⟩⟩
+    cases u with
+    | elem =>
+      simp only [elaborate] at h
+      cases hi : indexable (peel t).2 with
+      | none => simp [hi] at h
+      | some de =>
+        obtain ⟨ds, e⟩ := de
+        simp only [hi, Option.map_eq_some_iff] at h
+        obtain ⟨⟨s', l'⟩, hr, heq⟩ := h
+        simp only [Prod.mk.injEq] at heq
+        obtain ⟨rfl, rfl⟩ := heq
+        obtain ⟨pre, hp⟩ := tail ((peel t).1 ++ ds) .elem e s' (Or.inl rfl) hr
+        exact ⟨pre, by simpa [List.append_assoc] using hp⟩
+    | member m =>
+      simp only [elaborate] at h
+      have viaMember : ∀ i, (match ms i m with
+            | some mt => (elaborate ms mt rest).map (fun r => ((peel t).1 ++ [Step.member m] ++ r.1, r.2))
+            | none => none) = some (steps, leaf) →
+          ∃ pre, steps = pre ++ [.elem] ∨ ∃ m', steps = pre ++ [.member m'] := by
+        intro i hh
+        cases hm : ms i m with
+        | none => simp [hm] at hh
+        | some mt =>
+          simp only [hm, Option.map_eq_some_iff] at hh
+          obtain ⟨⟨s', l'⟩, hr, heq⟩ := hh
+          simp only [Prod.mk.injEq] at heq
+          obtain ⟨rfl, rfl⟩ := heq
+          exact tail (peel t).1 (.member m) mt s' (Or.inr ⟨m, rfl⟩) hr
+      cases hpt : (peel t).2 with
+      | struct i => rw [hpt] at h; exact viaMember i h
+      | word i sz => rw [hpt] at h; exact viaMember i h
+      | void => rw [hpt] at h; simp at h
+      | prim _ => rw [hpt] at h; simp at h
+      | array _ _ => rw [hpt] at h; simp at h
+      | arrayNamed _ _ => rw [hpt] at h; simp at h
+      | slice _ => rw [hpt] at h; simp at h
+      | slicePtr _ => rw [hpt] at h; simp at h
+      | endless _ => rw [hpt] at h; simp at h
+      | arraylike _ => rw [hpt] at h; simp at h
+      | unresolved _ => rw [hpt] at h; simp at h
+      | pointer _ => rw [hpt] at h; simp at h
+      | view _ => rw [hpt] at h; simp at h
+
+/-- **the address of whatever a path denotes is accepted too** (`&g[1]`, `&s.items[2]`, `&d[k].arr`, `&x`): with the pointer
+    type `&leaf` expected for the whole expression, the type demanded of the variable is the one of the plain access.
+    (This is what F51 broke for paths ending in an index: the pointer was wrapped into the demanded array type.) -/
+theorem address_path_accepted (ms : Members) (hms : ∀ i m mt, ms i m = some mt → Inner mt = true)
+    (t : Ty) (ht : Outer t = true) (p : List UStep) (steps : List Step) (leaf : Ty)
+    (h : elaborate ms t p = some (steps, leaf)) :
+    conc t (demandedAddr (.pointer leaf) steps) = true := by
+  cases p with
+  | nil =>
+    simp only [elaborate, Option.some.injEq, Prod.mk.injEq] at h
+    obtain ⟨rfl, rfl⟩ := h
+    simp [demandedAddr, demanded, isIndirect, unpointer, conc_refl]
+  | cons u rest =>
+    obtain ⟨pre, hp⟩ := elaborate_last ms (u :: rest) t steps leaf (by simp) h
+    have hplain := access_path_accepted ms hms t ht (u :: rest) steps leaf h
+    rcases hp with hp | ⟨m, hp⟩
+    · subst hp
+      simpa [demandedAddr, isIndirect_append_elem, unpointer] using hplain
+    · subst hp
+      have : demanded (.pointer leaf) (pre ++ [.member m]) = demanded leaf (pre ++ [.member m]) :=
+        demanded_member_last _ _ m pre
+      simpa [demandedAddr, isIndirect_append_member, this] using hplain
+
 end Ty
 end Types
